@@ -2,7 +2,7 @@
     (model of index/eval.go, matchtree.go, indexdata.go, matchiter.go, hititer.go at /repo HEAD incl. the word fast-path
     fix commits 260937d d7a2c44 cae2348). *)
 From ZV Require Import Lib.Base Model.SearchCore Model.SearchCoreIters Proofs.SearchCoreIters Proofs.SearchCoreText Proofs.SearchCoreTree Proofs.SearchCoreLoop
-  Proofs.SearchCoreSelect Proofs.SearchCoreBuild Proofs.SearchCoreSimp Proofs.SearchCoreWord Proofs.SearchCoreTop Proofs.SearchCoreSym Proofs.SearchCoreRf Proofs.SearchCoreDistill Proofs.SearchCoreEngine Proofs.SearchCoreRegexTie.
+  Proofs.SearchCoreSelect Proofs.SearchCoreBuild Proofs.SearchCoreSimp Proofs.SearchCoreWord Proofs.SearchCoreTop Proofs.SearchCoreSym Proofs.SearchCoreRf Proofs.SearchCoreDistill Proofs.SearchCoreEngine Proofs.SearchCoreRegexTie Proofs.SearchCoreAndLineOff.
 From ZV Require Model.Regex.
 From Coq Require Import ZifyBool ZifyN.
 
@@ -264,6 +264,24 @@ Theorem C01_andline_loop_exact : forall (line : nat -> nat) (vs : list (list nat
   (andline_alg line vs f = true <-> common_line line vs).
 Proof. exact andline_alg_spec. Qed.
 Print Assumptions C01_andline_loop_exact.
+(** ... and the loop AS WRITTEN on offsets (lines[i] = [start, end): `bo < start` drops the candidate, `bo < end` is a hit,
+    otherwise the line iterator moves on while `bo >= end`) is that line-number loop, for every newline index in which
+    o < lineStart(l) <-> line(o) < l and o < lineStart(l+1) <-> line(o) <= l.  The strictness of the comparisons is what the
+    equality rests on: see C01_andline_boundary_example. *)
+Theorem C01_andline_offsets_are_lines :
+  forall (line lstart lend : nat -> nat),
+  (forall o l, o < lstart l <-> line o < l) -> (forall o l, o < lend l <-> line o <= l) ->
+  forall (fuel : nat) (lines : list nat) (cs : list (list nat)),
+  alo_lines true fuel (map (fun l => (lstart l, lend l)) lines) cs = al_lines fuel lines (map (map line) cs).
+Proof. exact alo_lines_line. Qed.
+Print Assumptions C01_andline_offsets_are_lines.
+
+(** "needle and thread\nneedle\n": base child thread (offset 11, line 0 = [0,18)), other child needle (offsets 0 and 18): the loop
+    as written finds the line; with `<=` at the line start (red-team change C01-r2) the candidate at column 0 is dropped *)
+Example C01_andline_boundary_example :
+  alo_lines true 2 [(0, 18)] [[0; 18]] = true /\ alo_lines false 2 [(0, 18)] [[0; 18]] = false /\ al_lines 2 [0] [[0; 1]] = true.
+Proof. exact alo_boundary. Qed.
+
 Theorem C01_same_line_is_common_line : forall (line : nat -> nat) (v0 : list nat) (vs : list (list nat)),
   existsb (fun o0 => forallb (fun v => existsb (fun o => line o =? line o0) v) (v0 :: vs)) v0 = true <-> common_line line (v0 :: vs).
 Proof. exact same_line_expr_spec. Qed.
